@@ -620,6 +620,39 @@ class PrefVer(VerificationStrategy):
         return f"PrefVer({self.prefs},{self.mode!r})"
 
 
+class PackVer(VerificationStrategy):
+    """like PrefVer, but counting, objects and sampling go through the library's defaults, i.e. through a specification
+    found with the pack this strategy offers"""
+
+    def __init__(self, prefs, mode=""):
+        self.prefs = tuple(prefs)
+        self.mode = mode
+        super().__init__()
+
+    def verified(self, c):
+        return not isinstance(c, SW) and (not c.just_prefix) and c.prefix in self.prefs and not c.is_empty()
+
+    def formal_step(self):
+        return "packver " + ",".join(self.prefs)
+
+    def pack(self, c):
+        return make_pack(mode=self.mode)
+
+    @classmethod
+    def from_dict(cls, d):
+        return cls(d["prefs"], d.get("mode", ""))
+
+    def to_jsonable(self):
+        d = super().to_jsonable()
+        d.pop("ignore_parent", None)
+        d["prefs"] = list(self.prefs)
+        d["mode"] = self.mode
+        return d
+
+    def __repr__(self):
+        return f"PackVer({self.prefs},{self.mode!r})"
+
+
 class Known(VerificationStrategy):
     """classes with a listed prefix (full alphabet of size `nletters`, if given) have a known (brute-force)
     enumeration; "SW" in prefs makes the separator classes known; no pack"""
@@ -762,13 +795,15 @@ class ExpandFactory(StrategyFactory):
 
 
 def make_pack(mode="", inferral=False, symmetry=False, iterative=False, factory=None, prefver=None, known=None,
-              reverse_needed=False, name="upword", rot=False, sep=None):
+              reverse_needed=False, name="upword", rot=False, sep=None, packver=None):
     """rot: add one-way Rot(1) and two-way Rot(2)/Rot(-1) unary strategies (cycles of one-way rules).
     sep: "plain" adds SepUnion/SepSplit; "reverse" additionally makes the full-alphabet class and the separator
     class known and withholds Expand/Peel, so that Av_A(P) is only reachable as a quotient (reverse rule)."""
     ver = [PAtom()]
     if prefver:
         ver.insert(0, PrefVer(prefver, mode))
+    if packver:
+        ver.insert(0, PackVer(packver, mode))
     if known is not None and sep != "reverse":
         ver.append(Known(known))
     if reverse_needed:
